@@ -266,6 +266,7 @@ pub fn run(mut ctx: Ctx) -> ! {
             }
         }
     }
+    run::cleanup_members(&pkgs.iter().map(|p| p.name.clone()).collect::<Vec<_>>());
     let min = if ctx.replay.is_some() { 0 } else { 5 };
     ctx.finish(
         "stage 3 (generated crates, the t_plural! family): packages of 3-5 locales out of the 16 with hand-transcribed rules and a natively created \
